@@ -43,6 +43,10 @@ def plan(tier, seed):
         fam = ['bimodal', 'chain', 'tiecut', 'bimodal'][i % 4]
         out.append({'fam': fam, 's': seed, 'p': NUM, 'i': 100000 + i,
                     'k': {'nce': 1 + i % 3, 'exclude': 'rand', 'third': i % 3 == 0, 'coincident': i % 2 == 0}})
+    nref = 17 * (2 if tier == 'quick' else 24)
+    for i in range(nref):        # real-world reference scenes of the repository (perturbed), random parameters
+        out.append({'fam': 'refdata', 's': seed, 'p': NUM, 'i': 700000 + i,
+                    'k': {'file': i % 17, 'perturb': (i // 17) % 5, 'default_prms': i < 17}})
     reps = 2 if tier == 'quick' else 40
     for i, kind in enumerate(scenes.DEGENERATE_KINDS * reps):
         out.append({'fam': 'degenerate', 's': seed, 'p': NUM, 'i': 200000 + i, 'k': {'kind': kind, 'rich': True}})
